@@ -105,7 +105,16 @@ def main(argv=None):
     if args.replay:
         with open(args.replay) as f:
             rec = json.load(f)
-        viol, sig, obs = mod.replay(rec['record'])
+        from vt.explore import Nondeterminism
+        try:
+            viol, sig, obs = mod.replay(rec['record'])
+        except Nondeterminism as e:
+            # the recorded schedule names decisions this tree never offers (for instance a
+            # second robots.txt request that a repaired tree does not make): the recorded
+            # execution, and so the recorded violation, does not exist here
+            print('REPLAY: no violation (the recorded schedule is not an execution of this '
+                  'tree: %s)' % e)
+            return 0
         if viol:
             print('REPLAY: %s' % viol)
             print('VIOLATION property=%s replay=%s' % (prop, args.replay))
